@@ -965,6 +965,155 @@ type Content struct {
 	// Uint32Slice is a specialized byte slice designed for storing and managing 4-byte (uint32) values in a
 	// compact and efficient format.
 	Uint32Slice *Uint32Slice
+	// ZeroOf and ZeroNeg exist only in the serialized form (see ConvertToByte / LoadFromByte).
+	// gob does not transmit a field whose value is the zero value of its type, not even behind a
+	// pointer, so a stored 0, "", false, empty byte array or empty Uint32Slice would come back as a
+	// nil field, i.e. as a Void treasure. ZeroOf records the content type of such a value so that
+	// LoadFromByte can restore it; ZeroNeg marks a floating-point negative zero. Both are always
+	// zero in memory and absent from files written by older versions, which load unchanged.
+	ZeroOf  ContentType
+	ZeroNeg bool
+}
+
+// zeroHint returns the content type of c's value if gob would drop that value (and whether it is
+// a negative floating-point zero); ContentTypeVoid if the value survives serialization as it is.
+func (c *Content) zeroHint() (ContentType, bool) {
+	switch {
+	case c == nil || c.Void:
+	case c.Uint8 != nil:
+		if *c.Uint8 == 0 {
+			return ContentTypeUint8, false
+		}
+	case c.Uint16 != nil:
+		if *c.Uint16 == 0 {
+			return ContentTypeUint16, false
+		}
+	case c.Uint32 != nil:
+		if *c.Uint32 == 0 {
+			return ContentTypeUint32, false
+		}
+	case c.Uint64 != nil:
+		if *c.Uint64 == 0 {
+			return ContentTypeUint64, false
+		}
+	case c.Int8 != nil:
+		if *c.Int8 == 0 {
+			return ContentTypeInt8, false
+		}
+	case c.Int16 != nil:
+		if *c.Int16 == 0 {
+			return ContentTypeInt16, false
+		}
+	case c.Int32 != nil:
+		if *c.Int32 == 0 {
+			return ContentTypeInt32, false
+		}
+	case c.Int64 != nil:
+		if *c.Int64 == 0 {
+			return ContentTypeInt64, false
+		}
+	case c.Float32 != nil:
+		if *c.Float32 == 0 {
+			return ContentTypeFloat32, math.Signbit(float64(*c.Float32))
+		}
+	case c.Float64 != nil:
+		if *c.Float64 == 0 {
+			return ContentTypeFloat64, math.Signbit(*c.Float64)
+		}
+	case c.String != nil:
+		if *c.String == "" {
+			return ContentTypeString, false
+		}
+	case c.Boolean != nil:
+		if !*c.Boolean {
+			return ContentTypeBoolean, false
+		}
+	case c.ByteArray != nil:
+		if len(c.ByteArray) == 0 {
+			return ContentTypeByteArray, false
+		}
+	case c.Uint32Slice != nil:
+		if len(*c.Uint32Slice) == 0 {
+			return ContentTypeUint32Slice, false
+		}
+	}
+	return ContentTypeVoid, false
+}
+
+// restoreZero re-creates the zero value that gob dropped, as recorded by ZeroOf / ZeroNeg, and
+// clears the two serialization-only fields. A field that did arrive is never overwritten.
+func (c *Content) restoreZero() {
+	if c == nil {
+		return
+	}
+	zeroOf, neg := c.ZeroOf, c.ZeroNeg
+	c.ZeroOf, c.ZeroNeg = ContentTypeVoid, false
+	switch zeroOf {
+	case ContentTypeUint8:
+		if c.Uint8 == nil {
+			c.Uint8 = new(uint8)
+		}
+	case ContentTypeUint16:
+		if c.Uint16 == nil {
+			c.Uint16 = new(uint16)
+		}
+	case ContentTypeUint32:
+		if c.Uint32 == nil {
+			c.Uint32 = new(uint32)
+		}
+	case ContentTypeUint64:
+		if c.Uint64 == nil {
+			c.Uint64 = new(uint64)
+		}
+	case ContentTypeInt8:
+		if c.Int8 == nil {
+			c.Int8 = new(int8)
+		}
+	case ContentTypeInt16:
+		if c.Int16 == nil {
+			c.Int16 = new(int16)
+		}
+	case ContentTypeInt32:
+		if c.Int32 == nil {
+			c.Int32 = new(int32)
+		}
+	case ContentTypeInt64:
+		if c.Int64 == nil {
+			c.Int64 = new(int64)
+		}
+	case ContentTypeFloat32:
+		if c.Float32 == nil {
+			v := float32(0)
+			if neg {
+				v = float32(math.Copysign(0, -1))
+			}
+			c.Float32 = &v
+		}
+	case ContentTypeFloat64:
+		if c.Float64 == nil {
+			v := float64(0)
+			if neg {
+				v = math.Copysign(0, -1)
+			}
+			c.Float64 = &v
+		}
+	case ContentTypeString:
+		if c.String == nil {
+			c.String = new(string)
+		}
+	case ContentTypeBoolean:
+		if c.Boolean == nil {
+			c.Boolean = new(bool)
+		}
+	case ContentTypeByteArray:
+		if c.ByteArray == nil {
+			c.ByteArray = []byte{}
+		}
+	case ContentTypeUint32Slice:
+		if c.Uint32Slice == nil {
+			c.Uint32Slice = new(Uint32Slice)
+		}
+	}
 }
 
 // TreasureStatus is an enumeration type representing the status of a "Treasure" operation in the Swamp.
@@ -1580,9 +1729,18 @@ func (t *treasure) ConvertToByte(guardID guard.ID) ([]byte, error) {
 		newObj.treasure.Content = t.treasure.Content
 	}
 
+	// gob drops zero values even behind pointers; if the stored value is one, encode a copy of
+	// the model whose content carries the type hint (the in-memory treasure is not touched).
+	toEncode := t.treasure
+	if zeroOf, neg := t.treasure.Content.zeroHint(); zeroOf != ContentTypeVoid {
+		contentCopy := *t.treasure.Content
+		contentCopy.ZeroOf, contentCopy.ZeroNeg = zeroOf, neg
+		toEncode.Content = &contentCopy
+	}
+
 	var buf bytes.Buffer
 	encoder := gob.NewEncoder(&buf)
-	err := encoder.Encode(t.treasure)
+	err := encoder.Encode(toEncode)
 	if err != nil {
 		return nil, err
 	}
@@ -1605,6 +1763,8 @@ func (t *treasure) LoadFromByte(guardID guard.ID, b []byte, fileName string) err
 	if err != nil {
 		return err
 	}
+	// bring back a zero value that gob did not transmit (see Content.ZeroOf)
+	t.treasure.Content.restoreZero()
 	// filenév beállítása
 	t.treasure.FileName = &fileName
 	return nil
